@@ -222,4 +222,32 @@ example : Reach exStore exRun :=
 example : exRun.st.trace = [.create "c-1", .ack "c-1"] ∧ isBound exRun.st "c-1" = true ∧
     (exRun.st.claim.map (·.ref)) = some (some "c-1") := by decide
 
+/-! ### recorded limit (outside the property's quantifier)
+
+If ANOTHER claim's controller may bind XRs (not an `Env` step), the window between the read of
+the XR and the server-side syncer's forced apply is unprotected: the apply carries no
+resourceVersion. Witness: claim statically referencing the unbound XR `x-b`; the reconcile
+reads it (unbound), updates the claim; then `x-b` is bound to another claim; the pending apply
+rebinds it. (The client-side syncer's merge patch carries the rv of the XR read and is rejected.) -/
+
+def exClaim2 : Claim := ⟨1, some "x-b", true, false, false⟩
+def exStore2 : St := { exStore with claim := some exClaim2, hist := [exClaim2] }
+
+/-- something that is not an environment step of this model: another claim takes the XR -/
+def bindOther (s : St) (n : Name) : St :=
+  match s.xrs n with
+  | some x => (putXR s n { x with cref := some .other }).1
+  | none => s
+
+def exRun2 (ssa : Bool) : Sys :=
+  let cfg : Cfg := { ssa := ssa, pick := none, xpick := fun _ => none, cands := [], up := none }
+  -- get claim, get XR x-b, (csa: get XR again) then the foreign bind, then the pending write
+  let a := stepOk (stepOk ⟨exStore2, some (reconcile cfg)⟩)
+  let b := if ssa then stepOk a else a      -- ssa: Update(claim) comes first
+  let c := if ssa then b else stepOk b      -- csa: the Get of Apply
+  stepOk ⟨bindOther c.st "x-b", c.thread⟩
+
+example : Ev.xrWrite "x-b" true ∈ (exRun2 true).st.trace := by decide
+example : Ev.xrWrite "x-b" true ∉ (exRun2 false).st.trace := by decide
+
 end Xp.C06
